@@ -16,6 +16,7 @@ RULE = (
     "Structured formulas - 'lhs ~ rhs', 'a | b | c', 'y1 | y2 ~ x | z', the same shapes given as keyword / tuple / "
     "nested-dict specifications, an empty part ('0') - over G-frames whose nulls are spread over the variables of "
     "different parts, with categorical factors, contrasts and stateful transforms (center/scale on a null-free column) "
+    "and lag() of a null-free column (a transform that creates a missing value itself, in the first row) "
     "shared between parts; outputs pandas/numpy/sparse; rank reduction on/off; optional caller drop set. Oracle: (1) "
     "result shape == formula shape; (2) all leaves have the same rows (and index on pandas output), namely the rows "
     "outside the joint null set J computed from the data by the generator; (3) every leaf equals the separate build of "
@@ -118,6 +119,9 @@ def check_case(case) -> Outcome:
     own = []
     for p in parts:
         nr = null_rows(p, fr)
+        if any(x.get("fn") == "lag" for t in p["terms"] for x in t):
+            nr = nr | {0}  # lag() of a complete column: the missing value is created by the transform, in the first row
+            out.label("null-created-by-transform")
         own.append(nr)
         J |= nr
     caller = None if case["drop"] is None else {d % n for d in case["drop"]}
@@ -171,7 +175,8 @@ def check_case(case) -> Outcome:
             out.fail("leaf-spec-regenerates-part", f"{f!r}: part {path}", **feat)
     # (5) each leaf spec carries the state pooled during the joint build: applied to a strict subset of the kept
     # rows it must reproduce those rows (a transform that had to re-derive its statistics would differ)
-    if len(kept) >= 3:
+    has_lag = any(x.get("fn") == "lag" for p in parts for t in p["terms"] for x in t)
+    if len(kept) >= 3 and not has_lag:  # (lag is not row-wise: a subset of the rows has other lags)
         sub = kept[::2]
         dsub = df.iloc[sub]
         for path, mm in rl.items():
@@ -265,6 +270,14 @@ def gen(max_rows=10):
             parts[0] = lhs
         if draw(st.integers(0, 7)) == 0:
             parts[-1] = {"intercept": False, "terms": []}  # an empty part
+        if draw(st.integers(0, 5)) == 0:
+            # a transform that creates a missing value (first row) from a complete column, in one part; the bare column
+            # itself (complete, so it contributes no missing row) possibly in another
+            i = draw(st.integers(0, nparts - 1))
+            parts[i]["terms"] = F.normalize_terms(parts[i]["terms"] + [[{"k": "py", "fn": "lag", "cols": ["z"]}]])
+            if draw(st.booleans()):
+                j = draw(st.integers(0, nparts - 1))
+                parts[j]["terms"] = F.normalize_terms(parts[j]["terms"] + [[{"k": "num", "col": "z"}]])
         return {
             "frame": fr, "parts": parts, "shape": shape,
             "output": draw(st.sampled_from(["pandas", "pandas", "numpy", "sparse"])),
@@ -275,7 +288,7 @@ def gen(max_rows=10):
     return strat()
 
 
-BUDGET_S = {"quick": 70, "thorough": 1500}
+BUDGET_S = {"quick": 110, "thorough": 1500}
 
 
 def campaigns(tier, shard=0, nshards=1):
